@@ -787,3 +787,24 @@ def bbrepr_has_no_type_hooks(ctx):
     extra = sorted(set(c.methods) - {'__init__', 'repr1'} - set(hooks))
     ctx.ob(not extra, c, '_BBRepr overrides construction (limits) and repr1 (builtin names) only', '' if not extra else str(extra))
     ctx.floor(2)
+
+
+@rule('C18.15')
+def path_is_a_plain_sequence_class(ctx):
+    """Path behaves as an immutable sequence of its steps through ``__len__`` and ``__getitem__``
+    (which keeps the root), and it is pickled / copied by the default protocol of a plain
+    class: (a) it defines no ``__iter__`` / ``__contains__`` / ``__reversed__`` of its own that
+    could disagree with indexing; (b) it declares no ``__slots__`` unless it also says how to
+    pickle itself (copyreg refuses slotted classes without __getstate__ under protocols 0 and 1)"""
+    c = ctx.cls('core.Path')
+    own = sorted(n for n in ('__iter__', '__contains__', '__reversed__', 'index', 'count') if c.defines(n))
+    ctx.ob(not own, c, 'iteration / membership of a Path follow from __len__ and __getitem__ (no override)',
+           '' if not own else '%s may disagree with p[i] (e.g. yield T-rooted steps for an S-rooted path)' % own)
+    slots = c.defines('__slots__') or any(isinstance(st, ast.Assign) and any(is_name(t, '__slots__') for t in st.targets)
+                                          for st in c.node.body)
+    pick = [n for n in ('__getstate__', '__reduce__', '__reduce_ex__') if c.defines(n)]
+    ok = not slots or bool(pick)
+    ctx.ob(ok, c, 'Path can be pickled with every protocol (no __slots__ without __getstate__)',
+           '' if ok else 'pickle protocols 0 and 1 raise TypeError for a slotted class without __getstate__')
+    ctx.ob(c.defines('__getitem__') and c.defines('__len__'), c, 'Path defines __len__ and __getitem__')
+    ctx.floor(3)
